@@ -135,11 +135,13 @@ package meta
 //@   property C07
 //@   callee metabase.objectLocked
 //@   pureeffect
+//@   requires [lock_verdict_for_the_current_epoch_and_the_target] a0 == currEpoch && a2 == target
 //@   defines !result ==> targetNotLocked()
 //@ callrule c07_target_status in handleObjectWithAssociation
 //@   property C07
 //@   callee metabase.objectStatus
 //@   pureeffect
+//@   requires [status_for_the_current_epoch_and_the_target] a1 == target && a2 == currEpoch
 //@   defines result == targetStatus()
 //@ callrule c07_tombstone_collaborators in handleObjectWithAssociation
 //@   property C07
